@@ -128,6 +128,14 @@ func castingFamily(r *hx.Rng, report func(sc *Scenario, res map[string]int)) int
 		if len(sc.Accounts) > 0 {
 			sc.Accounts[0].Bal = e18(100000).String()
 		}
+		// the pool hands the proposer transactions with canonical sources (it keys and orders them by
+		// sender), so only lists on which Less is a strict total order are pool-producible: canonical
+		// spelling first, and the order is checked with the real Less below
+		for i := range sc.Txs {
+			if sc.Txs[i].Source != "" {
+				sc.Txs[i].Source = "0x" + a20(common.HexToAddress(sc.Txs[i].Source))
+			}
+		}
 		uniqHashes(sc)
 		// executed order of a verifier = the proposer's input order
 		applyFlags(sc, sc.Height-1, false)
@@ -150,6 +158,30 @@ func castingFamily(r *hx.Rng, report func(sc *Scenario, res map[string]int)) int
 		sc.Txs = nil
 		for _, h := range order {
 			sc.Txs = append(sc.Txs, byHash[h])
+		}
+		// strictly sorted under the real Less (every earlier entry Less than every later one and not vice
+		// versa)?  Otherwise a prefix of the list may sort differently on the verifier — the documented
+		// quirk of cast_unsorted_counterexample, outside the property — and the block is not used.
+		{
+			blk := mkBlock(sc)
+			txs := types.Transactions(blk.Transactions)
+			total := true
+			hx.Guard(func() string {
+				for i := 0; i < len(txs) && total; i++ {
+					for j := i + 1; j < len(txs); j++ {
+						if !txs.Less(i, j) || txs.Less(j, i) {
+							total = false
+							break
+						}
+					}
+				}
+				return ""
+			})
+			if !total {
+				evmStats["cast-skipped-less-not-total"]++
+				continue
+			}
+			evmStats["cast-blocks"]++
 		}
 		// documented quirk (Props/C01E.cast_unsorted_counterexample): the proposer does not sort; handed the
 		// list in another order than the verifier's it may disagree with the verifier of its own block
